@@ -116,14 +116,14 @@ def c10(run, tier):
     t2 = os.path.join(run.work, "store-random.ndjson")
     p = run.harness_cmd(["store-record", "-n", str(Q(tier, 400, 4000)), "-out", t2], "store-record")
     if p.returncode != 0:
-        from check import Infra
+        from infra import Infra
         raise Infra("store-record failed: " + p.stderr[-1000:])
     run.judge_trace(t2, "Trace_Store", "random-streams", "C10.store", timeout=Q(tier, 600, 3000))
     # stack space: long flat streams in a child process, call depth sampled inside Pull()
     t3 = os.path.join(run.work, "flat.ndjson")
     p = run.harness_cmd(["flat", "-n", str(Q(tier, 100000, 1000000)), "-out", t3], "flat", timeout=600)
     if p.returncode != 0:
-        from check import Infra
+        from infra import Infra
         raise Infra("flat driver failed: " + p.stderr[-1000:])
     run.judge_trace(t3, "Trace_Store", "flat", "C10.flat", workers=1)
 
@@ -206,8 +206,189 @@ def session_replay(run, path):
     return 0
 
 
+def c14(run, tier):
+    import os, json, subprocess, random
+    import cli
+    from infra import Infra
+    # ---------------- library ----------------
+    cfg = run.cfg("MC_Threads.cfg", {"LegacyUnionInPlace": "TRUE", "EmitOn": "FALSE", "MaxSteps": 3}, "legacy.cfg")
+    ok, out = run.tlc_mc("Xsel", cfg, "legacy-must-fail", expect_violation=True, timeout=600)
+    if ok:
+        raise_spec(run, "Xsel (2 threads) with LegacyUnionInPlace did not violate Frame", out)
+    # workloads from the 2-thread model, run by real goroutines under the race detector
+    race = run.build_harness(race=True)
+    cfg = run.cfg("MC_Threads.cfg", {"MaxSteps": Q(tier, 3, 4), "Threads": Q(tier, 2, 2)}, "gen.cfg")
+    saved = run.harness
+    run.harness = race
+    racelog = os.path.join(run.work, "race")
+    run.env["GORACE"] = "log_path=%s halt_on_error=0 atexit_sleep_ms=0" % racelog
+    run.env["VERIF_CONC_REPS"] = str(Q(tier, 6, 25))
+    try:
+        rep = run.tlc_gen_replay("Xsel", cfg, "workloads", timeout=Q(tier, 600, 3000), harness_args=["-workers", "4"])
+    finally:
+        run.harness = saved
+    run.absorb(rep, VALUE_ASPECTS | {"frame", "order"})
+    import glob
+    races = glob.glob(racelog + ".*")
+    for rf in races[:5]:
+        txt = open(rf).read()
+        keep = os.path.join("/verif/replays", run.pid)
+        os.makedirs(keep, exist_ok=True)
+        dst = os.path.join(keep, "race-" + os.path.basename(rf) + ".txt")
+        open(dst, "w").write(txt)
+        run.violations.append({"aspect": "race", "fam": "C14.workload", "text": "", "detail": "Go race detector: " + " | ".join(txt.splitlines()[:8])[:400], "replay": dst})
+    run.viol_total = getattr(run, "viol_total", 0) + len(races)
+    # ---------------- command-line tool ----------------
+    for nf, n, conc in [(3, 2, "TRUE"), (2, 1, "FALSE"), (3, 3, "TRUE")] + Q(tier, [], [(4, 2, "TRUE"), (4, 3, "TRUE")]):
+        cfg = run.cfg("CliPool.cfg", {"NF": nf, "N": n, "Conc": conc, "Prints": "{1, %d}" % nf}, "pool.%d.%d.cfg" % (nf, n))
+        ok, out = run.tlc_mc("CliPool", cfg, "clipool-%d-%d" % (nf, n), timeout=600, deadlock_check=True)
+        if not ok:
+            raise_spec(run, "CliPool violates its own properties", out)
+    binary = run.build_cli(race=True)
+    rng = random.Random(run.seed)
+    fdir = os.path.join(run.work, "files")
+    traces = {}     # config -> list of event lists
+    nruns = 0
+
+    def one_run(nf, n, prints, env, label, big=False):
+        nonlocal nruns
+        d = os.path.join(fdir, "%s-%d" % (label, nruns))
+        paths = cli.write_files(d, nf, prints, big)
+        rel = [os.path.relpath(p, d) for p in paths]
+        fmap = {r: i + 1 for i, r in enumerate(rel)}
+        ref = cli.run_cli(binary, ["-c", "1", "-a", "-x", "//a"] + rel, cwd=d)
+        tr = os.path.join(d, "hook.log")
+        e = dict(env)
+        e["XSEL_VERIF_TRACE"] = tr
+        e["GORACE"] = "halt_on_error=0 atexit_sleep_ms=0"
+        got = cli.run_cli(binary, ["-c", str(n), "-a", "-x", "//a"] + rel, env=e, cwd=d)
+        nruns += 1
+        run.evaluations += 1
+        evs, gave = cli.parse_hook_trace(tr, fmap)
+        problems = []
+        if "DATA RACE" in got.stderr or "DATA RACE" in ref.stderr:
+            problems.append(("race", "Go race detector reported a data race in the command: " + got.stderr[:300]))
+        if got.returncode != 0:
+            problems.append(("cli", "exit status %d: %s" % (got.returncode, got.stderr[:200])))
+        why = cli.compare_blocks(ref.stdout, got.stdout)
+        if why:
+            problems.append(("blocks", "-c %d vs -c 1: %s" % (n, why)))
+        for a, detail in problems:
+            keep = os.path.join("/verif/replays", run.pid)
+            os.makedirs(keep, exist_ok=True)
+            dst = os.path.join(keep, "cli-%s-%d.json" % (label, nruns))
+            json.dump({"fam": "C14.cli", "nf": nf, "n": n, "prints": sorted(prints), "env": {k: v for k, v in env.items()}, "big": big, "why": detail}, open(dst, "w"))
+            run.violations.append({"aspect": a, "fam": "C14.cli", "text": "xsel -c %d -a -x //a %s" % (n, " ".join(rel)), "detail": detail, "replay": dst})
+            run.viol_total = getattr(run, "viol_total", 0) + 1
+        traces.setdefault((nf, n, n > 1, tuple(sorted(prints))), []).append(evs)
+        return evs, gave
+
+    # (a) schedules generated by TLC from CliPool, enforced by the gate hook
+    sched_cfg = run.cfg("CliPoolGen.cfg", {"NF": 3, "N": 2, "Conc": "TRUE", "Prints": "{1, 3}"}, "sched.cfg")
+    cmd, e, meta = run.tlc("CliPoolGen", sched_cfg, workers=1, timeout=300, simulate="num=%d" % Q(tier, 60, 600), extra=["-depth", "40", "-seed", str(run.seed)])
+    p = subprocess.run(cmd, cwd=run.work, env=e, capture_output=True, text=True)
+    scheds = []
+    for l in p.stdout.splitlines():
+        if l.startswith('"{'):
+            try:
+                scheds.append(json.loads(json.loads(l)))
+            except Exception:
+                pass
+    uniq = {json.dumps(x["sched"]): x for x in scheds}
+    if not uniq:
+        raise Infra("TLC produced no CliPool schedules: " + run.tail(p.stdout + p.stderr))
+    enforced = gave_up = 0
+    for key, sc in list(uniq.items())[:Q(tier, 40, 400)]:
+        d0 = os.path.join(fdir, "sched-%d" % nruns)
+        os.makedirs(d0, exist_ok=True)
+        sf = os.path.join(d0, "sched.txt")
+        open(sf, "w").write("".join("%s %s\n" % (ev["point"], ("f%d.xml" % ev["f"]) if ev["f"] else "") for ev in sc["sched"]))
+        evs, gave = one_run(3, 2, {1, 3}, {"XSEL_VERIF_SCHED": sf}, "sched")
+        if gave:
+            gave_up += 1
+        elif [(x["point"], x["f"]) for x in evs] == [(x["point"], x["f"]) for x in sc["sched"]]:
+            enforced += 1
+    run.stage_info.append({"stage": "cli:tlc-schedules", "generated": len(uniq), "enforced_exactly": enforced, "gate_gave_up": gave_up})
+    if sum(len(evs) for lst in traces.values() for evs in lst) == 0:
+        raise Infra("the verif hooks recorded no event at all (hook build broken?)")
+    if enforced == 0:
+        run.notes.append("no TLC-generated schedule could be enforced: the command's events deviate from every model behaviour (see the trace verdicts)")
+    # (b) seeded random yields, more files, several N
+    shapes = [(4, 2, {1, 2, 4}), (5, 3, {1, 3, 5}), (6, 4, {1, 2, 3, 4, 5, 6}), (3, 1, {1, 3}), (6, 2, {2, 5})]
+    for i in range(Q(tier, 40, 400)):
+        nf, n, prints = shapes[i % len(shapes)]
+        one_run(nf, n, prints, {"XSEL_VERIF_YIELD": str(run.seed * 1000 + i)}, "yield", big=(i % 7 == 0))
+    # all hook traces are judged by Trace_CliPool, one TLC run per configuration
+    for (nf, n, conc, prints), lst in traces.items():
+        tf = os.path.join(run.work, "cli-%d-%d-%s.ndjson" % (nf, n, "".join(map(str, prints))))
+        with open(tf, "w") as f:
+            f.write(json.dumps({"point": "config", "nf": nf, "n": n, "conc": conc, "prints": list(prints)}) + "\n")
+            for k, evs in enumerate(lst):
+                if k:
+                    f.write(json.dumps({"point": "reset", "f": 0}) + "\n")
+                for ev in evs:
+                    f.write(json.dumps(ev) + "\n")
+        run.judge_cli_trace(tf, "pool-%d-%d" % (nf, n), len(lst))
+
+
+def c14_replay(run, path):
+    import json, os, subprocess
+    import cli
+    if path.endswith(".txt"):
+        print("a race report is a record of one execution; re-run `bin/check C14` to look for it again")
+        return 2
+    if path.endswith(".ndjson"):
+        conf = json.loads(open(path).readline())
+        rc = {"fam": "C14.cli", "nf": conf["nf"], "n": conf["n"], "prints": conf["prints"], "big": False}
+    else:
+        rc = json.load(open(path))
+    if rc.get("fam") == "C14.workload":
+        h = run.build_harness(race=True)
+        e = dict(run.env, GORACE="halt_on_error=0 atexit_sleep_ms=0", VERIF_CONC_REPS="200")
+        p = subprocess.run([h, "replay-one", path], env=e, capture_output=True, text=True)
+        print(p.stdout[-2000:])
+        bad = p.returncode == 1 or "DATA RACE" in p.stderr
+        if bad:
+            print("VIOLATION property=C14 replay=%s" % path)
+        return 1 if bad else 0
+    # a command-line scenario: re-run the configuration under many yield seeds, judge traces and blocks
+    binary = run.build_cli(race=True)
+    nf, n, prints = rc["nf"], rc["n"], set(rc["prints"])
+    evlists = []
+    bad = False
+    for i in range(60):
+        d = os.path.join(run.work, "replay-%d" % i)
+        paths = cli.write_files(d, nf, prints, rc.get("big", False))
+        rel = [os.path.relpath(p, d) for p in paths]
+        fmap = {r: k + 1 for k, r in enumerate(rel)}
+        ref = cli.run_cli(binary, ["-c", "1", "-a", "-x", "//a"] + rel, cwd=d)
+        tr = os.path.join(d, "hook.log")
+        got = cli.run_cli(binary, ["-c", str(n), "-a", "-x", "//a"] + rel, env={"XSEL_VERIF_TRACE": tr, "XSEL_VERIF_YIELD": str(i)}, cwd=d)
+        why = cli.compare_blocks(ref.stdout, got.stdout)
+        if why or "DATA RACE" in got.stderr:
+            print("REPRODUCED:", why or "data race")
+            bad = True
+        evlists.append(cli.parse_hook_trace(tr, fmap)[0])
+    tf = os.path.join(run.work, "replay.ndjson")
+    with open(tf, "w") as f:
+        f.write(json.dumps({"point": "config", "nf": nf, "n": n, "conc": n > 1, "prints": sorted(prints)}) + "\n")
+        for k, evs in enumerate(evlists):
+            if k:
+                f.write(json.dumps({"point": "reset", "f": 0}) + "\n")
+            for ev in evs:
+                f.write(json.dumps(ev) + "\n")
+    run.judge_cli_trace(tf, "replay", len(evlists))
+    if run.violations:
+        bad = True
+    if bad:
+        print("VIOLATION property=C14 replay=%s" % path)
+        return 1
+    print("not reproduced:", path)
+    return 0
+
+
 def raise_spec(run, what, out):
-    from check import Infra
+    from infra import Infra
     raise Infra("%s -- the specification itself is inconsistent (machinery problem, not a verdict):\n%s" % (what, run.tail(out)))
 
 
@@ -260,6 +441,13 @@ PROPS = {
             "Trace_Xsel judges the result of every call (= Eval, so repeats and re-compilations agree) and the frame condition between consecutive lines; plus seeded random sessions of 20-50 calls on random documents; "
             "the model with LegacyUnionInPlace must violate Frame (non-vacuity)", "exhaustive": {"quick": True, "thorough": True},
             "assumptions": BASE_ASSUME + ["a compiled expression is observed through its behaviour (results of later calls), not by inspecting the Grammar value"]},
+    "C14": {"run": c14, "replay": c14_replay, "rule": "library: TLC enumerates every workload of the 2-thread Xsel system specification (3 calls, quick; 4 thorough) over shared held node-sets; each is run by real goroutines "
+            "sharing one cursor tree and ONE compiled expression per query, 6 (25) repetitions, in a harness built with the Go race detector; every concurrent result must equal the serial execution's "
+            "(which must equal the specification's), held node-sets must be unchanged at the end, no race report. command: CliPool is model-checked (invariants, deadlock freedom, termination under weak "
+            "fairness) for several (files, N); TLC-simulated behaviours of CliPool are enforced as schedules on the race-built verif binary through the gate hook, plus seeded random-yield runs on 2-6 "
+            "files with N in 1..4; every hook trace is judged by Trace_CliPool and stdout is compared block-wise with -c 1", "exhaustive": {"quick": False, "thorough": False},
+            "assumptions": BASE_ASSUME + ["data races are detected by the Go race detector on the executions that happen (no exhaustive schedule control inside the library: it has no hooks)",
+                                          "hook events that add to a counted resource are logged after the real action, those that remove from it before, so the logged occupancy never exceeds the real one"]},
     "C01": {
         "run": c01,
         "rule": "TLC enumerates every document the Store machine can build within the node bound (all kinds, names a/b x {no namespace,U1}), "
